@@ -266,6 +266,82 @@ func c06CancelRace(n int, b Bounds) *Scenario {
 	}
 }
 
+// c06BackPressure: N gated calls occupy the slots and m plain calls are dispatched and waiting for a
+// slot (confirmed by quiescence). Then the client stops reading (a reply's Send blocks) and the gated
+// calls are released. Handlers do not need the channel: every dispatched call must still get its turn
+// while the reply is stuck in Send.
+func c06BackPressure(n, m int, b Bounds) *Scenario {
+	var tokens []string
+	for i := 0; i < n; i++ {
+		tokens = append(tokens, "g")
+	}
+	for i := 0; i < m; i++ {
+		tokens = append(tokens, "c")
+	}
+	return &Scenario{
+		Name:   fmt.Sprintf("back-pressure N=%d {%s}: replies blocked in Send while dispatched calls wait", n, tokensName(tokens)),
+		Params: map[string]any{"limit": n, "waiting_calls": m},
+		Bounds: b,
+		New: func() *Instance {
+			h := &seqHarness{msgs: buildSeq(tokens), gates: NewGates()}
+			body := func() {
+				lib, peer, pipe := NewPipe(PipeOpts{Name: "srv", CloseUnblocksRecv: true})
+				srv := jrpc2.NewServer(anyAssigner{h.handler()}, &jrpc2.ServerOptions{Concurrency: n})
+				srv.Start(lib)
+				vs.GoNamed("controller", func() {
+					for _, ms := range h.msgs {
+						peer.Send([]byte(ms.JSON))
+					}
+					vs.AwaitQuiescence()
+					vs.Note("quiet", "all-dispatched")
+					pipe.BlockSend = true
+					for i := 0; i < n; i++ {
+						h.gates.Open(h.msgs[i].Members[0].Method)
+					}
+					vs.AwaitQuiescence()
+					vs.Note("quiet", "sends-blocked")
+					pipe.BlockSend = false
+					vs.AwaitQuiescence()
+					vs.Note("quiet", "drained")
+					peer.Close()
+				})
+				srv.WaitStatus()
+			}
+			check := func(x *vs.Exec) []Viol {
+				v := genericRules(x, nil)
+				if x.Outcome != "ok" {
+					return v
+				}
+				entered, exited := 0, 0
+				for _, e := range x.Log {
+					switch e.K {
+					case "h_enter":
+						entered++
+						if entered-exited > n {
+							v = append(v, Viol{"C06.R1", fmt.Sprintf("%d handlers executing with Concurrency %d", entered-exited, n)})
+						}
+					case "h_exit":
+						exited++
+					case "quiet":
+						if e.Arg(0) == "sends-blocked" {
+							Hit("C06.R2")
+							running, waiting := entered-exited, n+m-entered
+							if waiting > 0 && running < n {
+								v = append(v, Viol{"C06.R2", fmt.Sprintf("while a reply is blocked in Send, %d handlers are executing (limit %d) and %d dispatched calls have not started: not work-conserving", running, n, waiting)})
+							}
+						}
+					}
+				}
+				if exited != n+m {
+					v = append(v, Viol{"C06.R2", fmt.Sprintf("only %d of %d calls ran", exited, n+m)})
+				}
+				return v
+			}
+			return &Instance{Body: body, Check: check}
+		},
+	}
+}
+
 func c06Scenarios(tier string) []*Scenario {
 	var out []*Scenario
 	maxN, b := 2, Bounds{2, -1, 0}
@@ -291,6 +367,11 @@ func c06Scenarios(tier string) []*Scenario {
 		out = append(out, c06Gated(n, 2, false, true, n, Bounds{b.P - 1, -1, 0}))
 	}
 	out = append(out, c06Cancel(true, b), c06Cancel(false, b))
+	if tier == "quick" {
+		out = append(out, c06BackPressure(1, 2, Bounds{2, -1, 0}), c06BackPressure(2, 2, Bounds{1, 2, 0}))
+	} else {
+		out = append(out, c06BackPressure(1, 2, Bounds{3, -1, 0}), c06BackPressure(2, 2, Bounds{1, -1, 0}), c06BackPressure(2, 1, Bounds{2, -1, 0}))
+	}
 	if tier == "quick" {
 		out = append(out, c06CancelRace(1, Bounds{2, 2, 0}), c06CancelRace(2, Bounds{1, 2, 0}))
 	} else {
